@@ -1059,4 +1059,83 @@ func c04callerFacts(l *leanFile) {
 	l.p("an empty cursor) and both `Query` functions hand it on: no caller catches or ignores it -/")
 	l.p("def limitErrorPropagates : Bool := %s", leanBool(prop))
 	l.p("def limitErrorConstructor : String := %s", leanStr(ctor))
+
+	// ---- D. the page boundary and the re-position of a held cursor
+	// D1 commit: whatever asks the iterator tree (State, Get) comes before the Release; nothing asks it afterwards
+	commitOK := false
+	if cm := cur.find("crsr", "commit"); cm != nil {
+		var rel token.Pos
+		ast.Inspect(cm.Body, func(n ast.Node) bool {
+			if c, nm := c04callSel2(n); c != nil && nm == "Release" && rel == token.NoPos {
+				rel = c.Pos()
+			}
+			return true
+		})
+		asksAfter, asksBefore := false, false
+		ast.Inspect(cm.Body, func(n ast.Node) bool {
+			if c, nm := c04callSel2(n); c != nil && (nm == "State" || nm == "Get" || nm == "Next") {
+				if rel != token.NoPos && c.Pos() > rel {
+					asksAfter = true
+				} else {
+					asksBefore = true
+				}
+			}
+			return true
+		})
+		commitOK = rel != token.NoPos && asksBefore && !asksAfter
+	} else {
+		problem("cursor.crsr.commit not found")
+	}
+	l.p("/-- `crsr.commit` (the end of every request): `State` — whose `Get` may set the mixers' sticky eof flags — runs BEFORE")
+	l.p("`cur.it.Release()`, and nothing asks the iterator tree after the release: the tree a held cursor keeps is a released one -/")
+	l.p("def commitReleasesLast : Bool := %s", leanBool(commitOK))
+	// D2 applyStatePos: no loop both moves an iterator (SetPos) and can refuse the position (return of a non-nil error)
+	atomic := false
+	if ap := cur.find("crsr", "applyStatePos"); ap != nil {
+		nSet, mixed := 0, false
+		check := func(body *ast.BlockStmt) {
+			sets, refuses := false, false
+			ast.Inspect(body, func(n ast.Node) bool {
+				if c, nm := c04callSel2(n); c != nil && nm == "SetPos" {
+					sets = true
+				}
+				if rs, ok := n.(*ast.ReturnStmt); ok && len(rs.Results) == 1 && !c04isIdent(rs.Results[0], "nil") {
+					refuses = true
+				}
+				return true
+			})
+			if sets && refuses {
+				mixed = true
+			}
+		}
+		ast.Inspect(ap.Body, func(n ast.Node) bool {
+			switch x := n.(type) {
+			case *ast.RangeStmt:
+				check(x.Body)
+			case *ast.ForStmt:
+				check(x.Body)
+			}
+			if c, nm := c04callSel2(n); c != nil && nm == "SetPos" {
+				nSet++
+			}
+			return true
+		})
+		// and every refusal precedes the first move
+		var firstSet, lastRefuse token.Pos
+		ast.Inspect(ap.Body, func(n ast.Node) bool {
+			if c, nm := c04callSel2(n); c != nil && nm == "SetPos" && firstSet == token.NoPos {
+				firstSet = c.Pos()
+			}
+			if rs, ok := n.(*ast.ReturnStmt); ok && len(rs.Results) == 1 && !c04isIdent(rs.Results[0], "nil") {
+				lastRefuse = rs.Pos()
+			}
+			return true
+		})
+		atomic = nSet > 0 && !mixed && lastRefuse < firstSet
+	} else {
+		problem("cursor.crsr.applyStatePos not found")
+	}
+	l.p("/-- `crsr.applyStatePos` parses the whole position string before it moves any journal iterator: no loop contains both a")
+	l.p("`SetPos` and a `return <error>`, and every refusal precedes the first `SetPos` -/")
+	l.p("def applyStatePosParsesBeforeMoving : Bool := %s", leanBool(atomic))
 }
